@@ -55,17 +55,17 @@ B0 = "(LE(pstate->counter) == 0 ? 255 : (int)LE(pstate->counter) - 1)"
 SERVED0 = "(32 * %s - (32 - (int)LE(pstate->posn)))" % B0
 JOBS.append({
     "name": "hkdf.expand.sm", "files": ["harness/h_hkdf_sm.c", HKDF, "stubs/hmac_frame.c", "stubs/memcpy_ghost.c", "stubs/memset_ghost.c"],
-    "functions": [EX],
+    "functions": [EX], "defs": ["TJV_HKDF"],
     "loops": [{
         "fn": EX, "idx": 0, "line": r"while \(outlen > 0\)",
-        "assigns": "out, outlen, len, __CPROVER_object_whole(&hmac), __CPROVER_object_whole(state), __CPROVER_object_whole(tjv_out0), tjv_fill_base, tjv_fill_len, tjv_hm_finals_at_init, tjv_hm_inits, tjv_hm_finals, tjv_hm_reinits, tjv_hm_upd, tjv_hm_open, tjv_hm_last1, tjv_hm_have1, tjv_hm_last4, tjv_hm_have4",
+        "assigns": "out, outlen, len, __CPROVER_object_whole(&hmac), __CPROVER_object_whole(state), __CPROVER_object_whole(tjv_out0), tjv_fill_base, tjv_fill_len, tjv_hm_finals_at_init, tjv_hkdf_n, tjv_hm_inits, tjv_hm_finals, tjv_hm_reinits, tjv_hm_upd, tjv_hm_open, tjv_hm_last1, tjv_hm_have1, tjv_hm_last4, tjv_hm_have4",
         "inv": ("outlen <= LE(outlen) && out == LE(out) + (LE(outlen) - outlen) && __CPROVER_same_object(out, tjv_out0) && pstate->posn >= 1 && pstate->posn <= 32 && (outlen > 0 ==> pstate->posn == 32) && "
                 "SERVED == SERVED0 + (long)(LE(outlen) - outlen) && "
                 "tjv_hm_inits == LE(tjv_hm_inits) + (unsigned long)(BB - BB0) && tjv_hm_finals == LE(tjv_hm_finals) + (unsigned long)(BB - BB0)"
                 ).replace("SERVED0", SERVED0).replace("SERVED", SERVED).replace("BB0", B0).replace("BB", B).replace("LE(", LE + "("),
         "dec": "outlen",
         "map": {"out": EX + "::out", "outlen": EX + "::outlen", "len": EX + "::1::len", "hmac": EX + "::1::hmac", "state": EX + "::state",
-                "pstate": EX + "::1::pstate", "tjv_out0": "tjv_out0", "tjv_fill_base": "tjv_fill_base", "tjv_fill_len": "tjv_fill_len", "tjv_hm_finals_at_init": "tjv_hm_finals_at_init", "tjv_hm_inits": "tjv_hm_inits", "tjv_hm_finals": "tjv_hm_finals", "tjv_hm_reinits": "tjv_hm_reinits",
+                "pstate": EX + "::1::pstate", "tjv_out0": "tjv_out0", "tjv_fill_base": "tjv_fill_base", "tjv_fill_len": "tjv_fill_len", "tjv_hm_finals_at_init": "tjv_hm_finals_at_init", "tjv_hkdf_n": "tjv_hkdf_n", "tjv_hm_inits": "tjv_hm_inits", "tjv_hm_finals": "tjv_hm_finals", "tjv_hm_reinits": "tjv_hm_reinits",
                 "tjv_hm_upd": "tjv_hm_upd", "tjv_hm_open": "tjv_hm_open", "tjv_hm_last1": "tjv_hm_last1", "tjv_hm_have1": "tjv_hm_have1",
                 "tjv_hm_last4": "tjv_hm_last4", "tjv_hm_have4": "tjv_hm_have4"},
     }],
@@ -112,22 +112,22 @@ JOBS += split_grid({
 }, 8)
 PB = "tinyjambu_pbkdf2"
 INNER = {"fn": "tinyjambu_pbkdf2_f", "idx": 0, "line": r"while \(count > 2\)",
-         "assigns": "count, __CPROVER_object_whole(T), __CPROVER_object_whole(U), __CPROVER_object_whole(state), tjv_hm_reinits, tjv_hm_finals, tjv_hm_upd, tjv_hm_open",
-         "inv": "count >= 2 && count <= LE(count) && tjv_hm_finals - tjv_hm_finals_at_init == 2 + (LE(count) - count) && LE(count) == tjv_count".replace("LE(", LE + "("),
+         "assigns": "count, __CPROVER_object_whole(T), __CPROVER_object_whole(U), __CPROVER_object_whole(state), tjv_hm_reinits, tjv_hm_finals, tjv_hm_upd, tjv_hm_open, tjv_acc, tjv_hm_last_out",
+         "inv": "count >= 2 && count <= LE(count) && tjv_hm_finals - tjv_hm_finals_at_init == 2 + (LE(count) - count) && LE(count) == tjv_count && tjv_hm_last_out == U && T[tjv_gg] == tjv_acc".replace("LE(", LE + "("),
          "dec": "count",
          "map": {"count": "tinyjambu_pbkdf2_f::count", "T": "tinyjambu_pbkdf2_f::T", "U": "tinyjambu_pbkdf2_f::U", "state": "tinyjambu_pbkdf2_f::state",
                  "tjv_hm_reinits": "tjv_hm_reinits",
                  "tjv_hm_finals": "tjv_hm_finals", "tjv_hm_upd": "tjv_hm_upd", "tjv_hm_open": "tjv_hm_open",
-                 "tjv_hm_finals_at_init": "tjv_hm_finals_at_init", "tjv_count": "tjv_count"}}
+                 "tjv_hm_finals_at_init": "tjv_hm_finals_at_init", "tjv_count": "tjv_count", "tjv_acc": "tjv_acc", "tjv_gg": "tjv_gg", "tjv_hm_last_out": "tjv_hm_last_out"}}
 OUTER = {"fn": PB, "idx": 0, "line": r"while \(outlen > 0\)",
-         "assigns": "out, outlen, blocknum, __CPROVER_object_whole(&state), __CPROVER_object_whole(U), __CPROVER_object_whole(tjv_out0), tjv_hm_inits, tjv_hm_finals, tjv_hm_reinits, tjv_hm_upd, tjv_hm_open, tjv_hm_finals_at_init, tjv_hm_last4, tjv_hm_have4, tjv_hm_last1, tjv_hm_have1",
+         "assigns": "out, outlen, blocknum, __CPROVER_object_whole(&state), __CPROVER_object_whole(U), __CPROVER_object_whole(tjv_out0), tjv_hm_inits, tjv_hm_finals, tjv_hm_reinits, tjv_hm_upd, tjv_hm_open, tjv_hm_finals_at_init, tjv_hm_last4, tjv_hm_have4, tjv_hm_last1, tjv_hm_have1, tjv_acc, tjv_acc_prev, tjv_hm_last_out",
          "inv": ("blocknum >= 1 && blocknum - 1 <= LE(outlen) / 32 && outlen <= LE(outlen) && LE(outlen) - outlen == 32 * (blocknum - 1) && out == LE(out) + (LE(outlen) - outlen) && "
                  "__CPROVER_same_object(out, tjv_out0) && tjv_hm_inits == blocknum - 1 && count == tjv_count").replace("LE(", LE + "("),
          "dec": "outlen",
          "map": {"out": PB + "::out", "outlen": PB + "::outlen", "blocknum": PB + "::1::blocknum", "state": PB + "::1::state", "U": PB + "::1::U",
                  "count": PB + "::count", "tjv_out0": "tjv_out0", "tjv_hm_inits": "tjv_hm_inits", "tjv_hm_finals": "tjv_hm_finals", "tjv_hm_reinits": "tjv_hm_reinits",
                  "tjv_hm_upd": "tjv_hm_upd", "tjv_hm_open": "tjv_hm_open", "tjv_hm_finals_at_init": "tjv_hm_finals_at_init",
-                 "tjv_hm_last4": "tjv_hm_last4", "tjv_hm_have4": "tjv_hm_have4", "tjv_hm_last1": "tjv_hm_last1", "tjv_hm_have1": "tjv_hm_have1", "tjv_count": "tjv_count"}}
+                 "tjv_hm_last4": "tjv_hm_last4", "tjv_hm_have4": "tjv_hm_have4", "tjv_hm_last1": "tjv_hm_last1", "tjv_hm_have1": "tjv_hm_have1", "tjv_count": "tjv_count", "tjv_acc": "tjv_acc", "tjv_acc_prev": "tjv_acc_prev", "tjv_hm_last_out": "tjv_hm_last_out"}}
 SHAPE = {"files": ["harness/h_pbkdf2_shape.c", PBKDF2, "stubs/hmac_frame.c", "stubs/memcpy_ghost.c", "stubs/clean_stub.c"],
          "functions": [PB, "tinyjambu_pbkdf2_f (static)"], "props": ["C14", "C06"], "default_props": ["C14"],
          "unwind": 34, "stub_unwind": 34, "cost": 40, "mem_gb": 12,
@@ -153,4 +153,20 @@ JOBS.append({
     "props": ["C12", "C06"], "default_props": ["C12"], "tags": [(r"^hmac finalize:", ["C12"])], "unwind": 66, "cost": 20, "mem_gb": 8, "mem_share": 0.3,
     "unbounded": "every key length <= 2^40, key in an exact-size object, all key bytes, arbitrary inner state",
     "assumes": ["hash API replaced by a protocol-recording contract stub (arbitrary digests)"],
+})
+
+JOBS.append({
+    "name": "hkdf.extract.u", "files": ["harness/h_hkdf_extract.c", HKDF],
+    "functions": ["tinyjambu_hkdf_extract"], "props": ["C13", "C06"], "default_props": ["C13"], "unwind": 34, "cost": 3, "mem_gb": 4, "mem_share": 0.2,
+    "allow_no_body": ["tinyjambu_clean", "memcpy", "memset"],
+    "unbounded": "every keylen and saltlen <= 2^40 incl. NULL salt, exact-size objects",
+    "assumes": ["HMAC API replaced by a protocol-recording contract stub (arbitrary MAC value); HMAC itself: C12"],
+})
+
+JOBS.append({
+    "name": "hmac.oneshot.seq", "files": ["harness/h_hmac_seq.c", HMAC],
+    "remove_bodies": ["tinyjambu_hmac_init", "tinyjambu_hmac_reinit", "tinyjambu_hmac_update", "tinyjambu_hmac_finalize", "tinyjambu_hmac_free"],
+    "functions": ["tinyjambu_hmac"], "props": ["C12", "C06"], "default_props": ["C12"], "unwind": 34, "cost": 2, "mem_gb": 4, "mem_share": 0.1,
+    "allow_no_body": ["tinyjambu_hash", "memcpy", "memset"],
+    "unbounded": "every keylen and inlen (all of size_t)",
 })
